@@ -30,12 +30,31 @@ def eval_case(case):
                     break
     from .. import modelrun
     dis = []
+    # side condition of theorem C15_pause_resume: __update is idempotent at every `updated` snapshot
+    if tr0[-1]["exc"] is None:
+        bs = sim.build(case)
+        unstable = []
+
+        def obs(project, phase, working):
+            if phase == "updated" and not unstable:
+                a = sim.snap(project)
+                project._BaseProject__update()
+                b2 = sim.snap(project)
+                if a != b2:
+                    unstable.append(project.time)
+        bs.project._verif_observer = obs
+        import warnings
+        with warnings.catch_warnings():
+            warnings.simplefilter("ignore")
+            bs.project.simulate(**sim.sim_kwargs(op))
+        if unstable:
+            dis.append("side condition of C15_pause_resume fails: a second __update changes the state at step %d" % unstable[0])
     if tr0[-1]["exc"] is None:
         kk = ref["time"] // 2
         seq = [dict(op, max_time=kk), dict(op, init_state=False, init_log=False)]
         cc = dict(case, ops=seq)
         bb, trr = sim.run_ops(cc, want_snaps=True)
-        dis = modelrun.compare(cc, trr, modelrun.FULL)
+        dis += modelrun.compare(cc, trr, modelrun.FULL)
     return {"violations": out, "disagreements": dis, "sig": simcheck.behaviour_sig(S, tr0), "hist": simcheck.base_hist(S, tr0),
             "nontrivial": (ref or {}).get("time", 0) >= 2,
             "summary": {"status": (ref or {}).get("status"), "time": (ref or {}).get("time")}}
